@@ -1,4 +1,4 @@
 SPECIFICATION Spec
-CONSTANTS FixZ1=FALSE Procs={"syncdb","syncdb2","disable","snap","enable"}
-INVARIANTS LocksFree NoDeadlock NoLeakAfterCloseK
+CONSTANTS FixZ1=TRUE Procs={"syncdb","syncdb2","disable","snap","enable"}
+INVARIANTS LocksFree NoDeadlock NoLeakAfterClose
 CHECK_DEADLOCK FALSE
